@@ -295,7 +295,7 @@ fn dump_regular(sm: &SourceMap, tag: char) -> String {
         lst(names, ","),
         lst(sc, ","),
         lst(ign, ","),
-        if sorted { "" } else { "UNSORTED" },
+        if !sorted { "UNSORTED" } else { crate::util::order_marker(sm) },
         lst(ts, "/")
     )
 }
@@ -629,6 +629,7 @@ fn describe(sm: &SourceMap) -> String {
         items.push(format!("did={}", sx(&d.to_string())));
     }
     let toks: Vec<String> = sm.tokens().map(|t| crate::ops::map::show_tok(&t.get_raw_token())).collect();
+    let toks = { let mut t = toks; let m = crate::util::order_marker(&sm); if !m.is_empty() { t.push(m.to_string()); } t };
     if !toks.is_empty() {
         items.push(format!("toks={}", toks.join(";")));
     }
